@@ -127,13 +127,13 @@ def doPlain (hex : String) : String :=
   | (.err _, _) => "reject"
   | (.oof, _) => "oof"
 
-/-- hypotheses of `C04_dead_subtrees_reached_clean` on the preprocessor's parse of the text: `leafy` (every `define / usage / position node
-    carries a token), plus `+include` when the forest has an `include node (then the theorem applies to runs with ignore_include only) -/
+/-- hypotheses of `C04_dead_subtrees_reached_clean` on the preprocessor's parse of the text: every `define / usage / position / `include node
+    carries a token and every `include node has exactly one child (`good_of_checks`) -/
 def doGood (hex : String) : String :=
   let inp := unhex hex
   let st0 : PState := {}
   match eval grammar inp (fuelFor inp) (.allConsuming (.call idx_preprocessor_text)) 0 {} st0.init with
-  | (.ok _ _ ts, _) => if goodLeafyb ppKinds ts then "leafy" else "not-leafy"
+  | (.ok _ _ ts, _) => if goodLeafyb ppKinds ts && goodIncb ppKinds ts then "leafy" else "not-leafy"
   | (.err _, _) => "reject"
   | (.oof, _) => "oof"
 
